@@ -43,7 +43,7 @@ def main():
         if fid and fid in open_ids:
             known_lines.append((fid, f.get('summary', open_ids[fid]['text'])))
         else:
-            violations.append((f, True))
+            violations.append((f, not f.get('no_input')))
     seen = set()
     for fid, text in known_lines:
         if fid not in seen:
@@ -66,7 +66,9 @@ def main():
                    'correspondence harness: /verif/harness (generators, canonicaliser, Gallina printer, case files evaluated with vm_compute)',
                ] + list(getattr(mod, 'TRUSTED', [])))
     rc = 0
-    for payload, found in violations:
+    if len(violations) > 5:
+        print(f'({len(violations)} violating inputs found; writing replays for the first 5)')
+    for payload, found in violations[:5]:
         payload.setdefault('property', prop)
         payload.setdefault('seed', common.SEED)
         path = common.write_replay(prop, payload)
